@@ -329,7 +329,8 @@ static void caseB(uint64_t i, vr::Ctx& ctx)
     static const size_t streamSizes[] = { 1, 64, 512 };
     RspSpec s;
     s.stream     = true;
-    s.ops        = gPrograms[i / 3];
+    s.ops        = gPrograms[i / 9];
+    s.moveStream = int((i / 3) % 3);
     s.streamSize = streamSizes[i % 3];
     s.code       = gCodes[i % gCodes.size()];
     s.headers    = gHdrSets[i % gHdrSets.size()];
@@ -364,7 +365,7 @@ int main(int argc, char** argv)
     }
     nR = gReqs.size();
     nS = (uint64_t)gCodes.size() * gHdrSets.size() * gCookieSets.size();
-    nB = (uint64_t)gPrograms.size() * 3;
+    nB = (uint64_t)gPrograms.size() * 9;
     return vr::run(opt, nR + nS + nB, [](uint64_t idx, vr::Ctx& ctx) {
         ctx.count("executions", 1);
         if (idx < nR)
